@@ -433,6 +433,28 @@ def pickup_of_solved_thickness(c):
     c.ensure_eq('C01.update.pickup_follows_the_solved_gap', c.val(sg.get_thickness(3)), sc * c.val(sg.get_thickness(1)) + of)
 
 
+@contract('C01.update.two_solves_adverse_order', ['optiland/solves.py:SolveManager.apply', 'optiland/solves.py:MarginalRayHeightSolve.apply',
+                                                  OP + ':Optic.update'], ['C01'], max_paths=64, groebner_s=40)
+def two_solves_adverse_order(c):
+    """two marginal-ray-height solves and no pickup, the solve on the later surface entered first (the earlier one moves everything
+    behind it, so it changes the ray reaching the later one): after an upstream edit and one update() *each* of them holds"""
+    lens, v = arbitrary_lens(c, 5, stop=1, finite_object=False)
+    lens.add_wavelength(0.55, is_primary=True)
+    lens.set_aperture('EPD', c.real('EPD', 0.5, 10.0, positive=True))
+    h2, h3 = c.real('height_2', -2.0, 2.0), c.real('height_3', -2.0, 2.0)
+    lens.solves.add('marginal_ray_height', 3, h3)
+    lens.solves.add('marginal_ray_height', 2, h2)
+    newR = c.real('new_radius', 20.0, 80.0, positive=True)
+    lens.set_radius(newR, 1)
+    _, ua1 = lens.paraxial.marginal_ray()
+    c.require(c.val(ua1[1]) != 0)
+    c.require(c.val(ua1[2]) != 0)
+    lens.update()
+    ya, _ = lens.paraxial.marginal_ray()
+    c.ensure_eq('C01.update.every_solve_holds_whatever_the_order_of_entry', c.val(ya[2]), h2)
+    c.ensure_eq('C01.update.every_solve_holds_whatever_the_order_of_entry', c.val(ya[3]), h3)
+
+
 # ---- bounded: media given as catalogue glasses (name, or (name, reference)) ----------------------------------------------------------
 def _catalogue_media(ct, tier, seed):
     """a lens built with catalogue glasses: the medium behind each surface is the catalogue entry *given for that surface* (the same
